@@ -284,6 +284,7 @@ func (w *Writer) Append(entries []types.LogEntry) error {
 		}
 	}
 
+	vhook("append.buffered", w.info.ID)
 	ofs := w.getOffsets()
 	// Work out if we need to seal before we commit and sync.
 	if (w.writer.writeOffset + uint32(len(w.writer.commitBuf)+indexFrameSize(len(ofs)))) > w.info.SizeLimit {
@@ -315,6 +316,7 @@ func (w *Writer) OffsetForFrame(idx uint64) (uint32, error) {
 	if idx < w.info.BaseIndex || idx < w.info.MinIndex || idx > w.LastIndex() {
 		return 0, types.ErrNotFound
 	}
+	vhook("offsetForFrame.checked", idx)
 	os := w.getOffsets()
 	entryIndex := idx - w.info.BaseIndex
 	// No bounds check on entryIndex since LastIndex must ensure it's in bounds.
@@ -463,6 +465,7 @@ func (w *Writer) sync() error {
 	if err := w.wf.Sync(); err != nil {
 		return err
 	}
+	vhook("append.synced", w.info.ID)
 
 	// Update commitIdx atomically
 	offsets := w.getOffsets()
